@@ -67,6 +67,7 @@ type C04Case struct {
 
 func genC04(r *Rng, tier string) *C04Case {
 	cs := &C04Case{Cfg: genCfg(r, 0.1)}
+	cs.Cfg.apply() // Source() during generation must already use this case's delimiters
 	ne := r.Range(1, 4)
 	for i := 0; i < ne; i++ {
 		cs.Envs = append(cs.Envs, GenEnv(r.Fork(uint64(100+i)), 0, 5))
